@@ -84,11 +84,35 @@ def L0b():
         yield ("rec", s)
 
 
-def L1(depth, variants=("fn",), skip=()):
+def cond_values(s):
+    out = []
+    if s[0] in ("if", "ifelse"):
+        out.append(s[1])
+    if s[0] == "elif":
+        out += [s[1], s[2]]
+    for i in cfgen.children_idx(s):
+        out += cond_values(s[i])
+    return out
+
+
+def L1(depth, variants=("fn",), skip=(), core_conds_beyond_depth1=False):
     seen = set()
     for s in cfgen.shapes(depth):
         if skip and cfgen.has_kind(s, skip):
             continue
+        if core_conds_beyond_depth1 and cfgen.shape_depth(s) >= 2:
+            # quick tier: the extended condition alphabet (!, &&, ||, >=, !=, string ==, call) is deviated at depth <= 1 only
+            devs = (d for d in cfgen.deviations(s) if max(cond_values(d) or [0]) < 6)
+        else:
+            devs = cfgen.deviations(s)
+        for d in devs:
+            if d not in seen:
+                seen.add(d)
+                for v in variants:
+                    if v == "module" and cfgen.has_kind(d, ("return",)):
+                        continue
+                    yield (v, d)
+        continue
         for d in cfgen.deviations(s):
             if d not in seen:
                 seen.add(d)
@@ -128,10 +152,10 @@ def L3():
 
 def L3q():
     """pairs of depth-1 compounds (no bare leaves, no fault/call) at function level and inside a while body"""
-    items = [s for s in cfgen.shapes(1) if s[0] not in cfgen.LEAF_KINDS and not cfgen.has_kind(s, ("fault", "call", "store"))]
+    items = [s for s in cfgen.shapes(1) if s[0] not in cfgen.LEAF_KINDS and not cfgen.has_kind(s, ("fault", "call", "store", "defcall"))]
     for a, b in itertools.product(items, items):
         yield ("fn", ("seq", a, b))
-    litems = [s for s in cfgen.shapes(1, True) if s[0] not in cfgen.LEAF_KINDS and not cfgen.has_kind(s, ("fault", "call", "return", "store"))]
+    litems = [s for s in cfgen.shapes(1, True) if s[0] not in cfgen.LEAF_KINDS and not cfgen.has_kind(s, ("fault", "call", "return", "store", "defcall"))]
     for a, b in itertools.product(litems, litems):
         yield ("fn", ("while", 2, ("seq", a, b)))
 
@@ -177,8 +201,8 @@ class C01(Check):
     def layers(self, tier):
         if tier == "quick":
             return [("L0-depth<=2-default", L0(2)), ("L0b-depth<=2-module+recursion", L0b()),
-                    ("L2-spines<=5", L2(5)), ("L3q-pairs-of-compounds", L3q()),
-                    ("L1-depth<=2-single-deviation(no call/store leaves)", L1(2, skip=("call", "store")))]
+                    ("L2-spines<=4", L2(4)), ("L3q-pairs-of-compounds", L3q()),
+                    ("L1-depth<=2-single-deviation(no call/store/defcall leaves)", L1(2, skip=("call", "store", "defcall"), core_conds_beyond_depth1=True))]
         return [("L0-depth<=3-default", L0(3)), ("L0b-depth<=2-module+recursion", L0b()),
                 ("L1-depth<=2-single-deviation", L1(2, ("fn", "module", "rec"))), ("L3-pairs", L3()),
                 ("L2-spines<=5", L2(5)), ("L6-long-sequences", L6_long()), ("L5a-depth<=2-double-deviation", L5_double(2)),
@@ -206,7 +230,7 @@ class C01(Check):
 
     def finish(self, stats, tier):
         errs = []
-        for t in ["store", "break", "continue", "return", "fault-div", "fault-assert" if tier == "thorough" else "fault-div", "elif",
+        for t in ["store", "defcall", "break", "continue", "return", "fault-div", "fault-assert" if tier == "thorough" else "fault-div", "elif",
                   "while", "from", "collide@nested", "collide@top", "anon@nested", "step", "step-expr", "step-call", "bounds-expr", "through", "module", "rec"]:
             if not stats["tags"].get(t):
                 errs.append(f"vacuity: construct {t} never explored")
